@@ -594,6 +594,22 @@ def _dec(req):
             raise ValueError('undeclared dummy')
     if str(req[3][1]) not in [str(u[1]) for u in units]:
         raise ValueError('no main unit')
+    for u in units:     # strict: every name used is declared (the generic shrinker drops arbitrary list elements)
+        declared = {str(d[1]) for d in u[3]}
+        used = set()
+
+        def fe(e):
+            if _h(e) in ('v', 'idx', 'sec'):
+                used.add(str(e[1]))
+            return e
+        fir.map_program([req[3][0], req[3][1], [u[0], u[1], u[2], [], u[4]]], fe)
+        for st in fir.iter_stmts(u[4]):
+            if _h(st) == 'do':
+                used.add(str(st[1]))
+            if _h(st) == 'assoc':
+                declared |= {str(b[0]) for b in st[1]}
+        if not used <= declared:
+            raise ValueError('undeclared name')
     if not isinstance(req[4], list) or not all(isinstance(i, list) for i in req[4]):
         raise ValueError('malformed inputs')
     return op, str(req[2]) == 'gf', req[3], list(req[4])
@@ -850,8 +866,24 @@ FIR_CFG = {
 }
 
 
+def has_bounded_section(prog):
+    """some section triplet has an explicit lower bound (shift_to_zero_indexing turns it into a Python-style half-open
+    range, which has no Fortran reading: outside the scope of the shift0 oracle)"""
+    hit = []
+
+    def fe(e):
+        if _h(e) == 'sec' and any(_h(d) == 'rng' and not _is_none(d[1]) for d in e[2:]):
+            hit.append(1)
+        return e
+    fir.map_program(prog, fe)
+    return bool(hit)
+
+
 def gen_fir(rng, kind):
-    p = fir.gen_program(rng, FIR_CFG[kind])
+    for _ in range(40):
+        p = fir.gen_program(rng, FIR_CFG[kind])
+        if kind != 'elem' or not has_bounded_section(p):
+            break
     return p, fir.gen_inputs(rng, p, 3, max_extent=5)
 
 
@@ -990,6 +1022,8 @@ class C30(Prop):
     # ---------------------------------------------------------------- direct oracle
     def oracle(self, req):
         op, gf, prog, inputs = _dec(req)
+        if op == 'shift0' and has_bounded_section(prog):
+            return []       # out of scope: start-1:stop is the Python range convention, not Fortran
         cls = classify(op, prog)
         t = transformed(op, prog)
         if t[0] != 'ok':
